@@ -529,16 +529,28 @@ def loop_error_discipline(repo, col):
                     c.func.attr == "store_file":
                 return True
             h = resolve_local_call(fl, c)
+            if h is None and isinstance(c.func, ast.Attribute):
+                # a method of an object of the package: the only class that
+                # has a method of that name
+                owners = [cc.methods[c.func.attr]
+                          for cc in repo.all_classes()
+                          if c.func.attr in cc.methods]
+                if len(owners) == 1:
+                    h = owners[0]
             return h is not None and any(
                 isinstance(x.func, ast.Attribute) and
                 x.func.attr == "store_file"
                 for g in helper_closure(h) for x in calls_in(g.node))
         stores = [c for c in calls_in(loop) if _stores(c)]
         ok = bool(stores) and not skips
-        col.add(rule, fl, "every row of the table is written", ok, "" if ok
+        # positively wrong: a row can be skipped; a store that is not
+        # recognised (done by an object this rule cannot name) is undecided
+        col.add(rule, fl, "every row of the table is written",
+                ok or not skips, "" if ok
                 else "a row of the link table can be skipped (continue/break) "
                 "before its link file is stored, while the command reports "
-                "success")
+                "success" if skips else "the call that stores a row's link "
+                "file was not recognised", undecided=not ok and not skips)
 
 
 # ---------------------------------------------------------------------
